@@ -101,6 +101,24 @@ CLAIMED['C19'] = dict(
          'the model); argparse usage errors (exit status 2) are outside the statement.',
     technique='Lean 4 proof (exit/JSON decision logic, field-for-field table obligations) + CLI correspondence with strict JSON parsing and an independent serialisation')
 
+CLAIMED['C16'] = dict(
+    text='Lean 4 theorems over the constructor model, where the validators\' in-place narrowing of a child object is `castE child param` and '
+         '"the existing child was altered" is "the node returned for that position differs from the child passed in": narrowing an operand '
+         'whose type set lies inside the parameter type returns the operand itself (castE_stable); every constructor returns a node around the '
+         'very children it was given when they satisfy its signature (mkUn_stable, mkBin_stable incl. the =/!= unification, mkField/mkIndex/'
+         'mkRange/mkSet_stable, mkQuant_children, castArgs_stable); re-entering the constructor of a well-typed node with its own children - '
+         'what but()/evolve and cast do - returns the node itself (rebuild_stable_*, from the C03 invariant WT); cast returns the node or a '
+         'copy differing in the stored type only (cast_result); negate and join wrap boolean predicates untouched (mkNot_stable, '
+         'mkAnd_stable). Partial: that simplify, split_and, refactor_reference, the this/var replacements and canonical_form only wrap '
+         'existing sub-trees at positions whose parameter contains their type set is not proved per function; the stream snapshots every '
+         'watched node (deep repr with data_type and metadata, hash, structural dump) around every call of sequences of up to 3 API calls, and '
+         'checks the but() contracts (identity when unchanged, equal to fresh construction, metadata copied not shared, eq/hash ignore metadata).',
+    design_ref='DESIGN.md §6 C16',
+    note='Trusted: Lean kernel and standard axioms; the functional constructor model stands for the heap behaviour of attrs validators '
+         '(object identity and aliasing are not modelled: "altered" is read off as "returned child differs"); Python object identity, attrs '
+         'evolve and dict copying are exercised by the stream only.',
+    technique='Lean 4 proof (narrowing is the identity on well-typed operands; constructor re-entry is the identity) + snapshot exploration of API call sequences')
+
 CLAIMED['C02'] = dict(
     text='Lean 4 theorems: sanityCheck (the model of HplProperty.sanity_check, threading the tuple of available aliases exactly as the four '
          '_check_* helpers do) accepts exactly the WellScoped scope/pattern pairs (declarative judgement over free references and aliases per '
